@@ -357,7 +357,7 @@ PROPS["C19"] = dict(
 PROPS["C20"] = dict(
     pkg="c20", race=True, level="exploration", prepare="exec_projects", crash_is_violation=True,
     projects_quick=[("fed2", ["v0", "v1"]), ("fed1", ["v0"])],
-    projects_thorough=[("fed2", ["v0", "v1", "w2", "v4"]), ("fed1", ["v0", "v1"])],
+    projects_thorough=[("fed2", ["v0", "v1", "w2", "v2"]), ("fed1", ["v0", "v1"])],
     quick=dict(shards=8, timeout=900), thorough=dict(shards=16, timeout=3000),
     claim="model-based testing of federation _entities on servers generated with the federation plugin (v1 and v2 schemas, several "
           "option vectors): rapid draws representation lists of length 0-12 (interleaved entity types, duplicates, single and compound "
